@@ -52,11 +52,11 @@ type c12Worker struct {
 
 func checkC12(c *Ctx) {
 	r, p := c.R, c.P
-	r.Explanation = "Decides necessary conditions of C12 with a BOUNDED, PATH-SENSITIVE ABSTRACT INTERPRETATION of the type-checked program's SSA form (kitcheck/c12x.go): nothing of dapr/kit is executed and no solver is used. The exported entry points of concurrency/runner.go and closer.go are interpreted path by path with every same-package callee (helpers, closures, method values, func-typed fields with a single target, deferred calls, sync.Once bodies) virtually inlined; the collection sizes (number of runners / closers) are fixed to each concrete n = 0..4 — the statement's quantifier — so loops over them are unrolled; the abstract state keeps exact small integers, phi choices, results of inlined helpers, local cells, small slices, the registered defers and the select case taken, and forks on every condition it cannot evaluate; identical states are merged and integers are clipped, so the interpretation is finite. The rules are predicates over the events of every abstract path. Unexported fields (also when grouped into a sub-struct) are identified by role — type and use by the exported methods — not by name. SIZES BEYOND n = 4 ARE NOT DECIDED. " +
+	r.Explanation = "Decides necessary conditions of C12 with a BOUNDED, PATH-SENSITIVE ABSTRACT INTERPRETATION of the type-checked program's SSA form (kitcheck/c12x.go): nothing of dapr/kit is executed and no solver is used. The exported entry points of concurrency/runner.go and closer.go are interpreted path by path with every same-package callee virtually inlined — helpers, closures, method values and bound wrappers, func-typed fields with a single target, elements of literal tables, methods called through a package interface with a single implementation, deferred calls, sync.Once bodies, range-over-func bodies and the standard library's iterator constructors (slices.Values/All, maps.Keys …); goroutine bodies are interpreted separately, once per go statement and call path, with the values they receive resolved in the starter's state; the collection sizes (number of runners / closers) are fixed to each concrete n = 0..4 — the statement's quantifier — so loops over them are unrolled; the abstract state keeps exact small integers, phi choices, results of inlined helpers, local cells, small slices, the registered defers and the select case taken, and forks on every condition it cannot evaluate; identical states are merged and integers are clipped, so the interpretation is finite. The rules are predicates over the events of every abstract path. Unexported fields (also when grouped into a sub-struct held by value, pointer or embedding) are identified by role — type and use by the exported methods — not by name; a flag may be an atomic.Bool or an atomic integer used as 0 / one non-zero value. SIZES BEYOND n = 4 ARE NOT DECIDED. " +
 		"(K0) both Run methods start goroutines only on paths on which their own atomic test-and-set of the running flag succeeded; RunnerManager.Add appends only on paths on which it read the flag unset and otherwise returns a non-nil error. " +
 		"(K1) every runner goroutine calls its own element runners[i] exactly once with the context derived by context.WithCancel, sends exactly one result after it, and calls that context's cancel on every path after the runner returned and never before; for every n, on every path Run starts one goroutine per element and receives exactly n results before it returns. " +
 		"(K2) nil is sent / a result is not handed to errors.Join only when it is known nil or context.Canceled; a result that may be Canceled is never joined; Run returns that errors.Join (or nil when nothing was joined); every runner or closer the package registers itself (the runner that waits for Close, the fatal-shutdown closer, AddCloser's wrapper of a result-less closer) returns nil — or, for a runner, context.Canceled — on every path, so only the user's runners and closers contribute errors. " +
-		"(K3) RunnerCloserManager.Run: closer goroutines start only after the inner manager's result was obtained, one per element of the closers, each calling its element once and sending its own result once; exactly n closer results are received, every received result is stored into the slice given to errors.Join, the Join is stored in the error field Close returns and is returned; after the inner result the closers are read only with the inner manager's lock held and the closing flag is set before that lock section is left; every write of the closers holds the lock; AddCloser appends only after reading closing == false inside the same lock section; every value it stores is the registered function, its bound Close, or a wrapper calling it exactly once and returning its error. " +
+		"(K3) RunnerCloserManager.Run: closer goroutines start only after the inner manager's result was obtained, one per element of the closers, each calling its element once and sending its own result once; exactly n closer results are received, every received result is stored into the slice given to errors.Join, the Join is stored in the error field Close returns and is returned; the closers list (and anything computed from it: its length, a snapshot, an element) decides a branch or selects a closer only if it was read when the list was frozen — with the inner manager's lock held, or after the closing flag was set inside or before a section of that lock — and the closing flag is set before a lock section that read the closers is left; every write of the closers holds the lock; AddCloser appends only after reading closing == false inside the same lock section; every value it stores is the registered function, its bound Close, or a wrapper calling it exactly once and returning its error. " +
 		"(K4) the channel WaitUntilShutdown waits for is closed only by the party whose test-and-set of running succeeded (Run: on every owned return, after the error field was stored; Close: before it waits); Close tries running before waiting, waits on every path before reading the error field and returns it; the channel Close closes is closed under a test-and-set of a flag nobody else writes; Run registers (whenever the inner manager has runners, for 1 and 2 runners) before starting the inner manager a runner that returns on that channel or on ctx.Done; the constructor creates the three channels. " +
 		"(K5) the fatal-shutdown function is called only, and always, on the timer case of a select whose other case is the release channel; the timer runs for *gracePeriod; the fatal closer is registered exactly when gracePeriod != nil; in Run, for every n >= 1, the release channel is closed exactly once, when exactly n-1 closer results have been received, and before the receive of the n-th (so also when the fatal closer is the only closer). " +
 		"NOT decided: behaviour over all completion orders and timings as such (that the Go scheduler/channel semantics deliver what the paths promise), panics inside runners or closers, data-race freedom of RunnerManager.Run's unlocked reads of the runners against a concurrent Add (outside the statement's quantifier; NOTE), liveness of user-supplied runners/closers, more than 4 runners/closers."
